@@ -4,9 +4,18 @@ not cover (generic code: `Iterator::sum`).
 -/
 import TFV.Gen
 import TFV.Prelude.IO
+import TFV.Hand.Serde
 
 namespace Extra
 open IOFmt
+
+def wrDe : Except Hand.DeErr TwoFloat → String
+  | .ok t => "Ok(" ++ wr_tf t ++ ")"
+  | .error .invalid_length => "Err(invalid_length)"
+  | .error .duplicate_field => "Err(duplicate_field)"
+  | .error .missing_field => "Err(missing_field)"
+  | .error .unknown_field => "Err(unknown_field)"
+  | .error .invalid_value => "Err(invalid_value)"
 
 def run (op : String) (a : Array String) : Option String :=
   match op with
@@ -30,6 +39,24 @@ def run (op : String) (a : Array String) : Option String :=
     if a.size < 1 + k then none else
     let xs := (List.range k).map (fun i => rdF64 a[1 + i]!)
     some (wr_tf (xs.foldl arithmetic.impl_Add_f64_for_TwoFloat.add num_integration.impl_Zero_for_TwoFloat.zero))
+  | "de_seq" =>
+    let k := a[0]!.toNat!
+    if a.size < 1 + k then none else
+    let xs := (List.range k).map (fun i => rdF64 a[1 + i]!)
+    some (wrDe (Hand.deSeq xs))
+  | "de_map" =>
+    let k := a[0]!.toNat!
+    if a.size < 1 + 2 * k then none else
+    let kvs := (List.range k).map (fun i => (a[1 + 2 * i]!, rdF64 a[2 + 2 * i]!))
+    some (wrDe (Hand.deMap kvs))
+  | "ser" =>
+    if a.size < 2 then none else
+    let (n, l, fs) := Hand.ser (rdTF a[0]! a[1]!)
+    some (fs.foldl (fun acc (k, v) => acc ++ " " ++ k ++ "=" ++ wr_f64 v) ("struct " ++ n ++ " " ++ toString l))
+  | "fmt_shape" =>
+    -- `fmt_shape lo rhi rlo` (renderings contain no blanks)
+    if a.size < 3 then none else
+    some ("\"" ++ Hand.fmtShape a[1]! a[2]! (rdF64 a[0]!) ++ "\"")
   | _ => none
 
 end Extra
